@@ -17,30 +17,52 @@ def generate(run, machine, gen_cfg, state_key="s"):
     hists = tlc.json_lines(res, "HIST")
     if not alpha or not hists:
         raise Machinery("behaviour generation printed nothing")
-    first = {}
-    for h in hists:  # BFS order: the first history reaching a state is a shortest one
-        k = json.dumps(h[state_key], sort_keys=True)
-        if k not in first:
-            first[k] = h["h"]
-    return alpha[0], list(first.values()), res
+    # TLC prints one line per generated successor: the BFS history of the predecessor state plus one ENABLED
+    # action.  All lines together are a transition tour: every explored state x every action enabled there.
+    states, seen, items = set(), set(), []
+    for h in hists:
+        states.add(json.dumps(h[state_key], sort_keys=True))
+        k = json.dumps(h["h"], sort_keys=True)
+        if h["h"] and k not in seen:
+            seen.add(k)
+            items.append(h["h"])
+    return alpha[0], items, len(states), res
 
 
-def tour(alphabet, paths, cap, rng):
-    items = [p + [a] for p in paths for a in alphabet]
+def tour(items, cap, rng):
     exhaustive = True
     if cap and len(items) > cap:
+        items = list(items)
         rng.shuffle(items)
         items = items[:cap]
         exhaustive = False
     return items, exhaustive
 
 
-def walks(alphabet, n, length, rng):
-    return [[rng.choice(alphabet) for _ in range(length)] for _ in range(n)]
+def walks(run, machine, gen_cfg, n, length, seed):
+    """random behaviours of the machine produced by TLC's simulator (they respect the machine's guards)"""
+    import os, re
+    if n <= 0:
+        return []
+    src = open(os.path.join(tlc.SPEC, gen_cfg)).read()
+    lines = [l for l in src.splitlines() if not re.match(r"\s*(CONSTRAINT|VIEW|INVARIANT|PROPERTY)\b", l)]
+    lines = [re.sub(r"MaxHist\s*=\s*\d+", "MaxHist = %d" % length, l) for l in lines]
+    lines = [re.sub(r"Emit\s*=\s*TRUE", "Emit = FALSE", l) for l in lines]
+    lines.append("INVARIANT EmitWalk")
+    cfg = os.path.join(run.work, "sim_%s.cfg" % machine)
+    os.makedirs(run.work, exist_ok=True)
+    with open(cfg, "w") as f:
+        f.write("\n".join(lines) + "\n")
+    res = tlc.run(machine, cfg, run.work + "/sim", workers=1, simulate="num=%d" % n,
+                  args=["-depth", str(length + 1), "-seed", str(seed + 1)], timeout=600)
+    ws = tlc.json_lines(res, "WALK")
+    if res.rc != 0 or res.errors or not ws:
+        raise Machinery("TLC simulation failed rc=%s %s\n%s" % (res.rc, res.errors, res.out[-1500:]))
+    return ws
 
 
 def check(pid, tier, seed, machine, mc_cfg, gen_cfg, trace_module, adapter, sig, corrupt, tour_cap, n_walks, walk_len,
-          extra_items=None, rule="", assumptions=(), run=None, finish=True, nontrivial=None, adapter_fn="run_trace"):
+          extra_items=None, variants=None, rule="", assumptions=(), run=None, finish=True, nontrivial=None, adapter_fn="run_trace"):
     import time
     run = run or Run(pid, tier, seed)
     T = [time.time()]
@@ -52,13 +74,16 @@ def check(pid, tier, seed, machine, mc_cfg, gen_cfg, trace_module, adapter, sig,
     run.add_design(res, machine + ":" + mc_cfg)
     lap('design')
     # 2 generation
-    alphabet, paths, gres = generate(run, machine, gen_cfg)
+    alphabet, all_items, n_states, gres = generate(run, machine, gen_cfg)
     lap('generate')
     # 3 behaviours
-    t_items, exh = tour(alphabet, paths, tour_cap, rng)
-    w_items = walks(alphabet, n_walks, walk_len, rng)
+    t_items, exh = tour(all_items, tour_cap, rng)
+    w_items = walks(run, machine, gen_cfg, n_walks, walk_len, seed)
     actions = t_items + w_items + list(extra_items or [])
     items = [{"id": i, "actions": a} for i, a in enumerate(actions)]
+    if variants:
+        for it in items:
+            it.update(variants[it["id"] % len(variants)])
     traces = pool.map_items(adapter, adapter_fn, items)
     lap('replay')
     # 4 monitor
@@ -68,7 +93,8 @@ def check(pid, tier, seed, machine, mc_cfg, gen_cfg, trace_module, adapter, sig,
         t = by_id[tid]
         run.violation(sig(t, step, clause), "%s fails at step %d of trace %s: %s" % (
             clause, step, tid, json.dumps(t["steps"][step - 1]["a"]) if step else "initial state"),
-            {"adapter": adapter, "actions": [s["a"] for s in t["steps"][:max(step, 1)]], "failing_step": step, "clause": clause})
+            {"adapter": adapter, "fn": adapter_fn, "id": t["id"], "actions": [s["a"] for s in t["steps"][:max(step, 1)]],
+             "variant": (variants[t["id"] % len(variants)] if variants else {}), "failing_step": step, "clause": clause})
     lap('monitor')
     # 5 canary
     canary = None
@@ -101,7 +127,7 @@ def check(pid, tier, seed, machine, mc_cfg, gen_cfg, trace_module, adapter, sig,
     run.cov["rule"] = rule
     run.cov["samples"] += [{"actions": traces[i]["steps"] and [s["a"] for s in traces[i]["steps"]], "final": traces[i]["steps"][-1]["post"] if traces[i]["steps"] else traces[i]["init"]}
                            for i in (0, len(t_items) // 2, len(traces) - 1) if i < len(traces)][:3]
-    run.notes.setdefault("machines", {})[machine] = ({"model_states_toured": len(paths), "alphabet": len(alphabet), "tour_traces": len(t_items),
+    run.notes.setdefault("machines", {})[machine] = ({"model_states_toured": n_states, "model_transitions": len(all_items), "alphabet": len(alphabet), "tour_traces": len(t_items),
                       "random_walks": len(w_items), "walk_length": walk_len, "monitor_states_judged": judged,
                       "canary": "rejected with %s" % cbad[0][2], "phase_s": run.notes.pop("phase_s", {})})
     run.assumptions += list(assumptions)
